@@ -121,7 +121,13 @@ def _first_appearance(labels):
 
 
 def _valid(xi, xj):
-    return [k for k in range(len(xi)) if not (np.isnan(xi[k]) or np.isnan(xj[k]))]
+    """channels that are not NaN in either observation (x == x is false exactly for NaN)"""
+    return [k for k in range(len(xi)) if xi[k] == xi[k] and xj[k] == xj[k]]
+
+
+def _rows(X):
+    """observations as lists of python floats (cheap element access in the loops below)"""
+    return np.asarray(X, dtype=float).tolist()
 
 
 def _spec_kernel(kind, xi, xj, noise, pl, pw):
@@ -156,6 +162,7 @@ def _spec_sims(X, cond, n, folds, method, noise, weighting, pl=1.0, pw=0.1):
     num = [[0.0] * n for _ in range(n)]
     den = [[0.0] * n for _ in range(n)]
     m = len(cond)
+    X = _rows(X)
     for i in range(m):
         for j in range(i, m):
             if i == j:
@@ -214,6 +221,7 @@ def _effective_folds(method, folds, m):
 def _corr_defined(X):
     """every observation pair has 0 or >= 2 valid channels and non-constant patterns on them"""
     m = X.shape[0]
+    X = _rows(X)
     for i in range(m):
         for j in range(i, m):
             v = _valid(X[i], X[j])
@@ -228,7 +236,8 @@ def _corr_defined(X):
     return True
 
 
-def _nan_mask(rs, kind, m, P, cond):
+def _nan_mask(rs, kind, m, P, cond, thin=0):
+    """NaN mask of the given kind; thin > 0 (later retries for correlation): fewer scattered NaNs"""
     M = np.zeros((m, P), dtype=bool)
     if kind in ('chan', 'chan+obs'):
         M[:, rs.randint(P)] = True
@@ -237,8 +246,8 @@ def _nan_mask(rs, kind, m, P, cond):
     if kind in ('obs', 'chan+obs'):
         hit = False
         for i in range(m):
-            if rs.rand() < 0.6:
-                for k in rs.choice(P, size=1 + int(rs.rand() < 0.4 and P > 3), replace=False):
+            if rs.rand() < 0.6 / (1 + 2 * thin):
+                for k in rs.choice(P, size=1 + int(rs.rand() < 0.4 and P > 3 and not thin), replace=False):
                     M[i, k] = True
                     hit = True
         if not hit:
@@ -267,8 +276,18 @@ def _noise(case, P):
     return A @ A.T / P + np.eye(P)
 
 
+_last = {'key': None, 'val': None}
+
+
 def _make(case):
-    """labels, X (float64 with NaN), first-appearance coding, folds, noise -- all from the JSON case"""
+    """labels, X (float64 with NaN), first-appearance coding, folds, noise -- all from the JSON case (read-only for callers)"""
+    key = json.dumps(case, sort_keys=True, default=str)
+    if _last['key'] != key:
+        _last['key'], _last['val'] = key, _make_(case)
+    return _last['val']
+
+
+def _make_(case):
     labels = list(case['labels'])
     m, P, method = len(labels), case['P'], case['method']
     uniq, cond = _first_appearance(labels)
@@ -284,7 +303,7 @@ def _make(case):
             if _KIND[method] != 'poisson':
                 X = X - 1.6                                        # mixed signs (centring errors become visible)
         if nan != 'none':
-            X[_nan_mask(rs, nan, m, P, cond)] = np.nan
+            X[_nan_mask(rs, nan, m, P, cond, thin=attempt // 15)] = np.nan
         if _KIND[method] != 'corr' or _corr_defined(X):
             break
     else:
@@ -333,7 +352,8 @@ def _same_labels(got, want):
 
 
 def _fmt(v):
-    return np.array2string(np.asarray(v, dtype=float), precision=6, separator=',', threshold=30)
+    v = [float(x) for x in np.asarray(v, dtype=float).ravel()]
+    return '[' + ', '.join('%.6g' % x for x in v[:15]) + (', ... (%d entries)' % len(v) if len(v) > 15 else '') + ']'
 
 
 # ----------------------------------------------------------------------------------------------------------------------
@@ -424,7 +444,7 @@ def _iso(fn):
 
 def _pair_counts(d, method):
     """cnt[a][b] (a<=b) = number of admissible observation pairs of conditions a, b with at least one valid channel"""
-    X, cond, n, m = d['X'], d['cond'], d['n'], d['m']
+    X, cond, n, m = _rows(d['X']), d['cond'], d['n'], d['m']
     folds = _effective_folds(method, d['folds'], m)
     cnt = [[0] * n for _ in range(n)]
     for i in range(m):
@@ -450,7 +470,8 @@ def klass(case, default='generic'):
         return 'correlation+nan'
     if case.get('weighting') == 'equal' and case.get('folds') is None and method not in CV_METHODS:
         return 'equal-weighting-no-cv'
-    if not case.get('descriptor_none'):
+    crossval = case.get('folds') is not None or method in CV_METHODS
+    if not case.get('descriptor_none') and (crossval or nan):     # otherwise every condition has its self pairs (i,i)
         d = _make(case)
         cnt = _pair_counts(d, method)
         if any(cnt[a][a] == 0 for a in range(d['n'])) and not all(_nan_expected(cnt, d['n'])):
@@ -744,7 +765,8 @@ def _cv_design(rs, n, F, reps):
 
 def tier_c(run, thorough):
     bds = []
-    Lmax = 6 if thorough else 5
+    Lmax = 6 if thorough else 5            # labelling domain
+    Lpair = 5 if thorough else 4           # pair-loop domain (x all settings)
 
     # ---- 1. labelling: ALL label sequences x ALL first-appearance orders ------------------------------------------
     bd = Bounded(run, 'C15/first-appearance', 'C15/calc_rdm_unbalanced/oracle/first-appearance-labels',
@@ -786,8 +808,8 @@ def tier_c(run, thorough):
     bd = Bounded(run, 'C15/pair-loop', 'C15/calc_rdm_unbalanced/oracle/pair-loop',
                  'ALL condition-index sequences of length 2..%d over 2..4 conditions x 6 methods (noise None / SPD%s) x 2 weightings '
                  'x NaN pattern %s x fold descriptor absent / occurrence number; 4 channels, one seed per combination'
-                 % (Lmax, ' / identity' if thorough else '', list(nans)), exhaustive=True, function='similarity.calc')
-    for L in range(2, Lmax + 1):
+                 % (Lpair, ' / identity' if thorough else '', list(nans)), exhaustive=True, function='similarity.calc')
+    for L in range(2, Lpair + 1):
         for seq in _rgs(L, 4):
             if max(seq) < 1:
                 continue
@@ -807,11 +829,11 @@ def tier_c(run, thorough):
     bds.append(bd)
 
     # ---- 3. seeded larger designs ----------------------------------------------------------------------------------
-    n_seed = 40 if thorough else 8
+    n_seed = 90 if thorough else 10
     bd = Bounded(run, 'C15/pair-loop-random', 'C15/calc_rdm_unbalanced/oracle/pair-loop-random',
                  'seeded designs: 3..7 conditions, 4..16 observations in random order (half of them with every condition repeated), 2..6 channels, random fold assignment '
                  '(2..4 folds, int/float/string labels) or none, 6 methods x noise x 2 weightings x 5 NaN patterns, prior '
-                 'lambda/weight varied; %d seeds per combination' % n_seed, function='calc_rdm_unbalanced')
+                 'lambda/weight varied; %d seeds per combination (noise matrix together with NaN channels: every third seed)' % n_seed, function='calc_rdm_unbalanced')
     for seed in range(n_seed):
         rs = np.random.RandomState(1000 + seed)
         for method, noise in _settings(True):
@@ -841,13 +863,15 @@ def tier_c(run, thorough):
                         case['folds'] = [FOLD_LABEL_SETS[kind][f] for f in fcode]
                     if _KIND[method] == 'poisson' and rs.rand() < 0.5:
                         case['pl'], case['pw'] = float(np.round(rs.rand() * 3, 2)), float(np.round(0.05 + rs.rand(), 2))
+                    if _dangerous(case) and seed % 3:
+                        continue                # noise matrix + NaN channels (separate interpreter): every third seed only
                     bd.check(orc_pairs, case, klass(case, 'nan-' + nan if nan != 'none' else 'generic'),
                              function='calc_rdm_unbalanced')
     bd.done()
     bds.append(bd)
 
     # ---- 4. agreement with calc_rdm --------------------------------------------------------------------------------
-    n_seed = 12 if thorough else 3
+    n_seed = 40 if thorough else 6
     bd = Bounded(run, 'C15/agree-calc_rdm', 'C15/calc_rdm_unbalanced/oracle/agrees-with-calc_rdm',
                  'seeded: one observation per condition (2..7 conditions, 4 non-cv methods, labels in random order or '
                  'descriptor=None); euclidean/mahalanobis with ALL condition-index sequences of length <= %d and random '
@@ -870,6 +894,8 @@ def tier_c(run, thorough):
                     case['values'], case['dtype'] = 'int', 'int64'
                 if rs.rand() < 0.4:
                     case['order'] = 'F'
+                if method == 'poisson' and rs.rand() < 0.6:
+                    case['pl'], case['pw'] = float(np.round(rs.rand() * 3, 2)), float(np.round(0.05 + rs.rand(), 2))
                 bd.check(orc_agree, case, klass(case, 'single-observation'), function='calc_rdm_unbalanced')
                 case = dict(case, descriptor_none=True)
                 bd.check(orc_agree, case, klass(case, 'single-observation'), function='calc_rdm_unbalanced')
@@ -898,6 +924,8 @@ def tier_c(run, thorough):
                             P=int(rs.randint(2, 7)), method=method, weighting=weighting, kind='cv')
                 if noise:
                     case['noise'] = noise
+                if method == 'poisson_cv' and rs.rand() < 0.6:
+                    case['pl'], case['pw'] = float(np.round(rs.rand() * 3, 2)), float(np.round(0.05 + rs.rand(), 2))
                 bd.check(orc_agree, case, 'cv-balanced,folds-' + kind, function='calc_rdm_unbalanced')
     # euclidean / mahalanobis on all index sequences
     for L in range(2, Lmax + 1):
@@ -914,7 +942,7 @@ def tier_c(run, thorough):
     bds.append(bd)
 
     # ---- 5. fold labels of any type ---------------------------------------------------------------------------------
-    n_seed = 10 if thorough else 3
+    n_seed = 30 if thorough else 3
     bd = Bounded(run, 'C15/fold-relabel', 'C15/calc_rdm_unbalanced/oracle/fold-exclusion',
                  'seeded designs (3..5 conditions, 6..14 observations, 2..4 folds, random = unbalanced fold assignment and '
                  'fold-balanced) x 6 methods x 2 weightings, each under 8 fold label sets (int, negative/unsorted int, huge int, '
@@ -942,7 +970,7 @@ def tier_c(run, thorough):
     bds.append(bd)
 
     # ---- 6. NaN channels --------------------------------------------------------------------------------------------
-    n_seed = 10 if thorough else 2
+    n_seed = 30 if thorough else 2
     bd = Bounded(run, 'C15/nan-pattern', 'C15/calc_rdm_unbalanced/oracle/nan-iff-no-valid-product',
                  'seeded designs (3..5 conditions, 4..12 observations, 4..6 channels), NaN patterns none / chan / obs / row / '
                  'disjoint (two conditions without a common valid channel), 6 methods x noise x 2 weightings, with / without '
@@ -966,7 +994,7 @@ def tier_c(run, thorough):
     bd.done()
     bds.append(bd)
 
-    n_seed = 10 if thorough else 3
+    n_seed = 30 if thorough else 3
     bd = Bounded(run, 'C15/nan-channel', 'C15/calc_rdm_unbalanced/oracle/all-nan-channel-has-no-effect',
                  'seeded designs (2..5 conditions, 3..12 observations, 2..5 channels, optionally with further per-observation '
                  'NaNs) with 1..2 all-NaN channels inserted at every position class (first / middle / last); 6 methods x noise x '
@@ -995,7 +1023,7 @@ def tier_c(run, thorough):
     bds.append(bd)
 
     # ---- 7. dtype / memory layout -----------------------------------------------------------------------------------
-    n_seed = 6 if thorough else 2
+    n_seed = 20 if thorough else 2
     bd = Bounded(run, 'C15/dtype-layout', 'C15/calc_rdm_unbalanced/oracle/dtype-and-layout',
                  'seeded integer-valued designs (2..5 conditions, 3..10 observations, 3..5 channels) given as float64/float32/'
                  'int64/int32/int16/uint8 x C/F/strided; float designs with NaN as float64 C/F/strided; 6 methods x noise x '
@@ -1029,10 +1057,10 @@ def tier_c(run, thorough):
     bds.append(bd)
 
     # ---- 8. single-pair helper --------------------------------------------------------------------------------------
-    n_seed = 8 if thorough else 2
+    n_seed = 24 if thorough else 2
     bd = Bounded(run, 'C15/calc-one', 'C15/calc_one_similarity/oracle/agrees-with-full-computation',
                  'seeded designs (2..5 conditions, 3..12 observations, 3..5 channels), every condition pair incl. a==a; 6 methods '
-                 'x noise x 2 weightings x NaN none/chan/obs, with / without folds, float64-C / int64 / float64-F inputs; '
+                 'x noise x 2 weightings x NaN none/chan/obs, with / without folds, float64-C / int64 / float64-F inputs, prior varied; '
                  '%d seeds' % n_seed, function='calc_one_similarity')
     for seed in range(n_seed):
         rs = np.random.RandomState(7000 + seed)
@@ -1054,6 +1082,8 @@ def tier_c(run, thorough):
                             case.update(values='int', dtype='int64')
                         elif r < 0.6:
                             case['order'] = 'F'
+                        if _KIND[method] == 'poisson' and rs.rand() < 0.6:
+                            case['pl'], case['pw'] = float(np.round(rs.rand() * 3, 2)), float(np.round(0.05 + rs.rand(), 2))
                         bd.check(orc_calc_one, case, klass(case, 'nan-' + nan if nan != 'none' else 'generic'),
                                  function='calc_one_similarity')
     bd.done()
